@@ -1,9 +1,11 @@
 mod canon;
 mod consts;
 mod ctx;
+mod fam_cipher;
 mod fam_codec;
 mod fam_frame;
 mod gen;
+mod toy;
 mod util;
 
 use ctx::Ctx;
@@ -41,6 +43,7 @@ fn main() {
         "parse" => fam_frame::parse(&mut ctx),
         "truncate" => fam_frame::truncate(&mut ctx),
         "alter" => fam_frame::alter(&mut ctx),
+        "cipher-sm" => fam_cipher::cipher_sm(&mut ctx),
         "codec" => fam_codec::codec(&mut ctx),
         "entry" => fam_codec::entry(&mut ctx),
         f => {
